@@ -403,8 +403,6 @@ func runSignIn(rep *vh.Report, env vh.Env, stacks []*stack, other *sut.AuthStack
 		case cs.LifetimeDeadline.After(sess.LifetimeDeadline):
 			rep.Violate(streamSignIn, i, "sign_in: code-lifetime-later path="+path, "the code's LifetimeDeadline is later than the presented cookie's; "+detail, kc)
 		}
-		wantU, _ := queryCode(redirect)
-		_ = wantU
 		_, ru := queryCode(redirect)
 		if lu == nil || ru == nil || lu.Host != ru.Host || lu.Path != ru.Path {
 			rep.Violate(streamSignIn, i, "sign_in: code-sent-elsewhere", "Location's host/path differ from redirect_uri's: "+loc+" vs "+redirect, kc)
